@@ -50,6 +50,7 @@ type pubObj struct {
 	// masked ephemeral: Mask(inner, pw)
 	inner *pubObj
 	pw    []*Term
+	gen   *pubObj // generator the mask was formed with
 	ok    *Term // validity of a parsed point (nil = valid)
 	ser   bool  // SerializeCompressed was called (bytes may be on the wire)
 }
@@ -62,6 +63,9 @@ type idealState struct {
 	pubs    []*pubObj
 	masked  []*pubObj
 	fresh   int
+	// abstract group model (ideal_group.go)
+	jac     map[*Value]jacRef
+	scalars map[*Value][]*Term
 	// operations log for provenance / freshness assertions
 	nonceUse []nonceUse
 }
